@@ -130,7 +130,7 @@ CHECKS['C03'] = {
              'Non-trivial: >= 2 Messages (lines for the metamorphic text check) and at least one read or write that moved fewer bytes than it could have (split inside a frame). Distinct: hash of (kind, sent bytes).'),
     'assumptions': ['text lines exclude NUL, CR and LF bytes (the text gateway cannot carry them inside a line)'],
     'targets': [
-        {'name': 'c03_gateways', 'src': ['harness/C03_gateways.cpp'], 'ccodecs': True, 'quick_n': 150000, 'thorough_n': 3000000, 'maxlen': 1500, 'min_nontrivial': 30000, 'budget': 60,
+        {'name': 'c03_gateways', 'src': ['harness/C03_gateways.cpp'], 'ccodecs': True, 'quick_n': 600000, 'thorough_n': 6000000, 'maxlen': 1500, 'min_nontrivial': 30000, 'budget': 60,
          'class_floors': {'binary_zlib': 10000, 'templating': 5000, 'text': 3000, 'slip': 1500, 'raw': 1500, 'raw_min_chunk': 1500, 'websocket': 5000, 'mini_gateway': 1500, 'micro_gateway': 1500, 'binary_encoding_switches': 3000, 'binary_zlib_independent_streams': 1500, 'binary_300KiB': 1500}},
     ],
 }
